@@ -77,7 +77,12 @@ def check_pair(e, v, res):
                 problems.append((clause, "str(MismatchError(%r, %s, verbose=%r, message=%r)) raised %s: %s" % (v, e.name, verbose, message, type(ex).__name__, str(ex)[:100])))
             res.evaluations += 1
     # assertThat / assert_that raise exactly now
-    for name, fn in (("assertThat", lambda: _new_case().assertThat(v, e.make(), "msg", True)), ("assert_that", lambda: assert_that(v, e.make(), "msg"))):
+    for name, fn in (
+        ("assertThat", lambda: _new_case().assertThat(v, e.make(), "msg", True)),
+        ("assert_that", lambda: assert_that(v, e.make(), "msg")),
+        ("assertThat (no message)", lambda: _new_case().assertThat(v, e.make())),
+        ("assert_that (no message)", lambda: assert_that(v, e.make())),
+    ):
         try:
             fn()
             problems.append(("assert-faithful", "%s(%r, %s) did not raise although match() returned a mismatch" % (name, v, e.name)))
@@ -106,7 +111,7 @@ class _Expecting(testtools.TestCase):
 
     def test_x(self):
         v, e = self._spec
-        self.expectThat(v, e.make(), "expectation")
+        self.expectThat(v, e.make())
         self._log.append("after-expectThat")
 
     def tearDown(self):
@@ -230,7 +235,7 @@ def run_shard(shard, tier, seed):
             if e.depth >= 1:
                 res.distinct.add(obs_hash(e.name))
             for v in X.values_for(e, doms):
-                if e.type == X.CALL and v is X._raise_kbi:
+                if e.type == X.CALL and (v is X._raise_kbi or v is X._raise_abort):
                     continue
                 problems = check_pair(e, v, res)
                 if e.depth <= 1:
